@@ -1,2 +1,6 @@
 //! Generators shared between properties.
+pub mod c01_keys;
+pub mod c01_offer;
+pub mod c01_signed;
+pub mod jose_headers;
 pub mod mutate;
